@@ -3,8 +3,12 @@
         kind 0 = Password, 1 = OAuthToken; wmode 0 = Write succeeds, 1 = Write
         returns an error, 2 = Write returns (0, nil); rkind 0 = <success/>,
         1 = <failure/>, 2 = other packet, 3 = read error
-        -> ((written ...) result parsed)   result 0 = nil, 1 = permanent ConnError,
-           2 = other error; parsed = ((mechanism payload)) of the single write or ()
+        -> (nwrites result (elem ...))   nwrites = number of Write calls; result 0 = nil,
+           1 = permanent ConnError, 2 = other error; one elem per Write, the written
+           bytes READ AS AN ELEMENT: (namespace local-name mechanism-attribute
+           character-data), or (bytes) when they are not one such element.  How the
+           element is spelled (quotes, attribute order, xmlns placement) is not compared;
+           the character data (the payload) is, byte for byte.
      (1 data text)   base64.StdEncoding: -> (EncodeToString(data) (DecodeString(text)) or ()) *)
 From Coq Require Import List ZArith NArith Bool.
 From XV Require Import Lib.Sx Model.Base64 Model.Sasl.
@@ -39,13 +43,25 @@ Definition dec_input (x : sx) : option c14_input :=
 Definition result_sx (r : result) : sx :=
   SZ (match r with Ok => 0 | ErrPermanent => 1 | ErrOther => 2 end).
 
+(* urn:ietf:params:xml:ns:xmpp-sasl / auth: the expanded name of what auth_element spells *)
+Definition s_ns_sasl : str :=
+  s_ [117; 114; 110; 58; 105; 101; 116; 102; 58; 112; 97; 114; 97; 109; 115; 58; 120; 109;
+      108; 58; 110; 115; 58; 120; 109; 112; 112; 45; 115; 97; 115; 108].
+Definition s_auth : str := s_ [97; 117; 116; 104].
+
+(* the model's written bytes, read back by the model's own server-side reader
+   (Props/C14.v, C14_wire_parses: it always succeeds on what auth_sasl writes) *)
+Definition elem_sx (e : str) : sx :=
+  match parse_auth e with
+  | Some (m, p) => SL [SS s_ns_sasl; SS s_auth; SS m; SS p]
+  | None => SL [SS e]
+  end.
+
 Definition run_typed (i : c14_input) : sx :=
   match i with
   | IAuth k user secret server w r =>
       let '(written, res) := auth_sasl k server user secret w r in
-      SL [SL (map SS written); result_sx res;
-          SO (fun mp : str * str => SL [SS (fst mp); SS (snd mp)])
-             (match written with [e] => parse_auth e | _ => None end)]
+      SL [Snat (length written); result_sx res; SL (map elem_sx written)]
   | ICodec data text => SL [SS (b64_encode data); SO SS (b64_decode text)]
   end.
 
